@@ -86,7 +86,7 @@ def functions_encoded(specs):
         out.append(
             {
                 "function": rust_path,
-                "file": "rsass/src/" + rel,
+                "file": os.path.normpath("rsass/src/" + rel),
                 "source_blake2b": sha(text) if text else None,
                 "found": text is not None,
             }
